@@ -15,3 +15,5 @@ pub mod eng;
 pub mod c12;
 pub mod c17;
 pub mod rx;
+pub mod life;
+pub mod sweeps;
